@@ -148,7 +148,7 @@ func (ib *inbound) decide(cond ssa.Value, f *pathFacts) int {
 		case token.GTR:
 			// len(writeApprovalCallbacks) > 0
 			if k, ok := constInt(x.Y); ok && k == 0 {
-				if c, ok := x.X.(*ssa.Call); ok && builtinName(&c.Call) == "len" && strings.HasSuffix(Path(c.Call.Args[0]), ".writeApprovalCallbacks") {
+				if isApprovalCallbackCount(x.X, 0) {
 					return tri(v.Approval)
 				}
 			}
@@ -363,4 +363,42 @@ func allInboundVals() []inboundVal {
 		}
 	}
 	return res
+}
+
+// isApprovalCallbackCount: len(<feature>.writeApprovalCallbacks), directly or through
+// an accessor that returns it (possibly read into a local under the lock first).
+func isApprovalCallbackCount(v ssa.Value, depth int) bool {
+	if depth > 3 {
+		return false
+	}
+	c, ok := v.(*ssa.Call)
+	if !ok {
+		if u, isU := v.(*ssa.UnOp); isU {
+			if al, isA := u.X.(*ssa.Alloc); isA {
+				if sv := singleStore(al); sv != nil {
+					return isApprovalCallbackCount(sv, depth+1)
+				}
+			}
+		}
+		return false
+	}
+	if builtinName(&c.Call) == "len" {
+		return strings.HasSuffix(Path(c.Call.Args[0]), "."+FN("FeatureLocal.writeApprovalCallbacks"))
+	}
+	h := c.Call.StaticCallee()
+	if h == nil || h.Blocks == nil || !strings.HasPrefix(fnPkgPath(h), repoMod) {
+		return false
+	}
+	n := 0
+	for _, b := range h.Blocks {
+		ret, isRet := b.Instrs[len(b.Instrs)-1].(*ssa.Return)
+		if !isRet {
+			continue
+		}
+		if len(ret.Results) != 1 || !isApprovalCallbackCount(ret.Results[0], depth+1) {
+			return false
+		}
+		n++
+	}
+	return n > 0
 }
